@@ -97,6 +97,7 @@ type c30Gen struct {
 	r     *rand.Rand
 	idx   int
 	only  map[int]bool // replay: emit these indices only
+	n3bad string       // shape of the chain's answer for refused N3 witnesses built next (see n3BadModes)
 }
 
 func newC30Gen(outPath string, r *rand.Rand) *c30Gen {
@@ -152,7 +153,7 @@ func (g *c30Gen) n3Witness(ok bool) (user.ID, []byte, []byte) {
 	invoc := make([]byte, 10+g.r.Intn(20))
 	g.r.Read(verif)
 	g.r.Read(invoc)
-	g.e.n3ok[string(invoc)+string(verif)] = n3Witness{ok: ok, acc: hash.Hash160(verif)}
+	g.e.n3ok[string(invoc)+string(verif)] = n3Witness{ok: ok, acc: hash.Hash160(verif), bad: g.n3bad}
 	return user.NewFromScriptHash(hash.Hash160(verif)), invoc, verif
 }
 
@@ -387,10 +388,12 @@ func (g *c30Gen) genV1() {
 			}
 		}
 		// N3 witnesses: the chain decides
-		for _, n3ok := range []bool{true, false} {
+		for _, mode := range append([]string{"good"}, n3BadModes...) {
 			c := goodV1(r)
-			c.scheme, c.n3ok = "n3", n3ok
-			g.emitV1(c, g.buildV1(c), true, "ok", "n3", "N3 witness")
+			c.scheme, c.n3ok = "n3", mode == "good"
+			g.n3bad = mode
+			g.emitV1(c, g.buildV1(c), true, "ok", "n3", "N3 witness, chain answer: "+mode)
+			g.n3bad = ""
 		}
 		// N3 witness of another account than the issuer
 		{
@@ -575,9 +578,11 @@ func (g *c30Gen) genBearer() {
 				g.emit(in, ok, kit.M{"how": "structural defect (correctly signed): " + f, "err": errs})
 			}
 		}
-		for _, n3ok := range []bool{true, false} {
-			m, _ := g.buildBearer("n3", cur, cur, cur+1, n3ok)
-			g.emitBearer(m, cur, true, "ok", "n3", n3ok, "N3 witness")
+		for _, mode := range append([]string{"good"}, n3BadModes...) {
+			g.n3bad = mode
+			m, _ := g.buildBearer("n3", cur, cur, cur+1, mode == "good")
+			g.emitBearer(m, cur, true, "ok", "n3", mode == "good", "N3 witness, chain answer: "+mode)
+			g.n3bad = ""
 		}
 	}
 	for _, sch := range schemeNames {
@@ -990,10 +995,12 @@ func (g *c30Gen) genV2() {
 				g.emit(in, ok, kit.M{"how": "structural defect (correctly signed): " + f, "err": errs})
 			}
 		}
-		for _, n3ok := range []bool{true, false} {
+		for _, mode := range append([]string{"good"}, n3BadModes...) {
 			c := goodV2(r)
-			c.scheme, c.n3ok = "n3", n3ok
-			g.emitV2(c, g.buildV2(c), true, "ok", "n3", "N3 witness")
+			c.scheme, c.n3ok = "n3", mode == "good"
+			g.n3bad = mode
+			g.emitV2(c, g.buildV2(c), true, "ok", "n3", "N3 witness, chain answer: "+mode)
+			g.n3bad = ""
 		}
 	}
 	// (h) delegation chains
